@@ -195,6 +195,11 @@ pub fn domain(f: Family, k: Kind, refs: &Refs, level: u8) -> Vec<Vec<u8>> {
 					"s://[::a]/p".to_string(), "s://[::A]/p".to_string(), "s://h:9/".to_string(), "s://h:10/".to_string(), "s://h:70000/".to_string(),
 					"s://[::1]/a".to_string(), "s://%5B%3A%3A1%5D/a".to_string(), "s://[::01]/a".to_string(), "s://u%40h/a".to_string(), "s://u@h/a".to_string(),
 					"s://h%3A80/a".to_string(), "s://h:80/a".to_string(), "s://[::1]".to_string(), "s://%5B%3A%3A1%5D".to_string(),
+					// schemes the library knows (feature `data`) are compared like any other
+					"data:a/./b".to_string(), "data:a/b".to_string(), "data:a/x/../b".to_string(), "data:/a/../b".to_string(), "data:/b".to_string(), "data:text/plain,a/./b".to_string(),
+					"data:text/plain,a/b".to_string(), "DATA:a/./b".to_string(), "dat:a/./b".to_string(), "dat:a/b".to_string(), "data:a/b?q".to_string(), "data:a/./b?q".to_string(),
+					"http://h/a/./b".to_string(), "http://h/a/b".to_string(), "https://h/a/b".to_string(), "file:///a/./b".to_string(), "file:///a/b".to_string(), "urn:a/./b".to_string(), "urn:a/b".to_string(),
+					"mailto:a/./b".to_string(), "mailto:a/b".to_string(),
 			] {
 				all.push(t.into_bytes());
 			}
@@ -369,16 +374,23 @@ fn run_prop(ctx: &Ctx, prop: &'static str) -> Report {
 		// all ordered pairs of a sub-domain with several spellings of one URI (dot segments and
 		// escapes in media type and data): owned and borrowed forms must compare alike
 		let vals = data_url_pair_values();
-		let mut r = Report::new();
-		for a in &vals {
-			for b in &vals {
-				r.evaluations += 1;
-				r.transitions += 1;
-				if let Some(v) = data_url_pair_case(a, b) {
-					r.violate(v);
+		let shards = 64usize;
+		let r = run_shards(ctx, shards, |si| {
+			let mut r = Report::new();
+			for (i, a) in vals.iter().enumerate() {
+				if i % shards != si {
+					continue;
+				}
+				for b in &vals {
+					r.evaluations += 1;
+					r.transitions += 1;
+					if let Some(v) = data_url_pair_case(a, b) {
+						r.violate(v);
+					}
 				}
 			}
-		}
+			r
+		});
 		total.count("data_url_pairs", r.transitions);
 		total.merge(r);
 	}
@@ -415,7 +427,20 @@ pub fn data_url_pair_values() -> Vec<Vec<u8>> {
 	]
 	.iter()
 	.map(|t| t.as_bytes().to_vec())
+	.chain({
+		// systematic part: "data:" + [/] PATH(3) over segments that carry the delimiters of the data-URL
+		// shape (',' ';base64,') next to dot segments and escapes - the URI comparison removes dot
+		// segments, so the FIRST delimiter of two equal values need not be the same one
+		let segs: Vec<Vec<u8>> = ["", ".", "..", "a", "%61", ",", ",x", "a,x", ";base64,QQ", "a;base64,QQ"].iter().map(|s| s.as_bytes().to_vec()).collect();
+		domains::paths(&segs, 3).into_iter().map(|p| {
+			let mut t = b"data:".to_vec();
+			t.extend_from_slice(&p);
+			t
+		})
+	})
 	.filter(|t| iref::uri::data::DataUrl::new(t).is_ok())
+	.collect::<std::collections::BTreeSet<Vec<u8>>>()
+	.into_iter()
 	.collect()
 }
 
